@@ -3,7 +3,10 @@ use crate::lterm::{LTerm, LTermInner};
 use crate::lvalue::LValue;
 use crate::relation::diseq::DisequalityConstraint;
 use crate::user::{DefaultUser, User};
+#[cfg(not(terohuttunen_proto_vulcan_verif))]
 use std::collections::HashMap;
+#[cfg(terohuttunen_proto_vulcan_verif)]
+use crate::verif_sim::HashMap;
 use std::rc::Rc;
 
 mod substitution;
